@@ -158,7 +158,9 @@ func dlgScenario(s dlg) sched.Scenario {
 				}
 				var o []util.Option
 				if s.complete {
-					o = append(o, opoptions.WithCompletePatterns([]*regexp.Regexp{regexp.MustCompile(`(?m)^router\(done\)#$`)}))
+					// the caller's slice has spare capacity, as one built with append has
+					cp := append(make([]*regexp.Regexp, 0, 4), regexp.MustCompile(`(?m)^router\(done\)#$`))
+					o = append(o, opoptions.WithCompletePatterns(cp))
 				}
 				w0, sent0 = len(tr.Writes), tr.Sent()
 				e.OpenWindow()
